@@ -339,6 +339,7 @@ package appencryption
 //@   facet C02, C14, C09, C04
 //@   ensures [C09:references-balanced] forall k *cachedCryptoKey :: owed(k) == old(owed(k))
 //@   requires wfE(e)
+//@   ensures [C04:ik-created-under-an-sk-checked-valid] err == nil && refused == old(refused) ==> ret(GetOrLoadLatest, 1, 0).CryptoKey.revoked != 1 && (exists t int :: old(now()) <= t && t <= now() && !(t > ret(GetOrLoadLatest, 1, 0).CryptoKey.created * 1000000000 + keylife()))
 //@   ensures [C04:returned-key-valid-within-call-unless-an-insert-was-refused] err == nil && refused == old(refused) ==> result.revoked != 1 && (exists t int :: old(now()) <= t && t <= now() && !(t > result.created * 1000000000 + keylife()))
 //@   modifies ext_calls, mk_calls, lcalls, refused, ms, owed, live, cacheowned
 //@   ensures [C09:unsaved-key-released] ret(GenerateKey, 1, 1) == nil && (err != nil || result != ret(GenerateKey, 1, 0)) ==> !live(ret(GenerateKey, 1, 0).secret)
